@@ -50,6 +50,16 @@ def domain_exclusion(spec: dict, dtype: str, J: np.ndarray):
     if name in ("UPGrad", "DualProj", "CAGrad"):
         if s < 2 * spec.get("norm_eps", 1e-4):
             return "below-2-norm_eps"
+    if name == "ConFIG":
+        # ConFIG's direction pinv(unit rows) w can vanish when the objectives cancel exactly (e.g. antiparallel unit rows):
+        # the implementation then returns 0 or a rounding-noise direction depending on the summation order - a razor edge
+        nz = J[np.any(J != 0, axis=1)]
+        if nz.shape[0]:
+            units = nz / np.linalg.norm(nz, axis=1, keepdims=True)
+            wts = np.ones(nz.shape[0]) if spec.get("pref") is None else np.array(spec["pref"])[np.any(J != 0, axis=1)]
+            d = np.linalg.pinv(units) @ wts
+            if np.linalg.norm(d) < 1e-6 * np.linalg.norm(wts):
+                return "config-direction-vanishes"
     if name == "IMTLG" and imtlg_balance(J) < 1e-3:
         # the weights are v / sum(v): when sum(v) nearly cancels they are huge and ill-conditioned (same rule as C17)
         return "imtlg-weights-sum-near-zero"
